@@ -266,6 +266,19 @@ func (e *Exec) fmtValue(fr *frame, verb byte, flags string, a value, out *[]piec
 		if x != nil {
 			var keys []string
 			vals := map[string]value{}
+			if x.len() == 1 {
+				// a single entry needs no ordering: its key may be symbolic
+				for _, en := range x.ents {
+					if en.dead {
+						continue
+					}
+					e.fmtValue(fr, verb, flags, en.k, out, lit)
+					*lit += ":"
+					e.fmtValue(fr, verb, flags, en.v, out, lit)
+				}
+				*lit += "]"
+				return
+			}
 			for _, en := range x.ents {
 				if en.dead {
 					continue
